@@ -28,9 +28,14 @@ def _num(v):
             return None
 
 
+ENUM_VALUES = {}      # 'CellOrientation::N' -> 0, filled by core.Ctx from the program's enum declarations
+
+
 def eval_int(c, env):
     """Interval (lo, hi) of canonical integer/real expression c under env {var id: (lo, hi)}."""
     t = c[0]
+    if t == "enum" and c[1] in ENUM_VALUES:
+        return (ENUM_VALUES[c[1]], ENUM_VALUES[c[1]])
     if t == "lit":
         n = _num(c[1])
         return (n, n) if n is not None else TOP
